@@ -133,9 +133,12 @@ fn check(run: &mut Run, sub: &Subject, f: &PreprocessingFn, text: &str, g: bool,
     let case = || case_json(text, g, pi, pd, seed, vector, nch);
     run.sample(case);
     let info = TextDataInfo { seed, ..Default::default() };
-    let call = || catch(|| f(TrainData::new(text.to_string(), None), info.clone()));
+    let call = |info: &TextDataInfo| catch(|| f(TrainData::new(text.to_string(), None), info.clone()));
     run.calls += 2;
-    let (first, second) = (call(), call());
+    // the second call has the same text and seed but comes from another source file and carries a
+    // mark: the result is a function of (text, seed), not of the rest of the item's bookkeeping
+    let elsewhere = TextDataInfo { seed, file_idx: 3, marks: [("mark".to_string(), "x".to_string())].into_iter().collect() };
+    let (first, second) = (call(&info), call(&elsewhere));
     let item = match first {
         Err(p) => {
             run.violation("no-panic", "", case(), format!("whitespace corruption panicked: {p}"));
@@ -159,8 +162,8 @@ fn check(run: &mut Run, sub: &Subject, f: &PreprocessingFn, text: &str, g: bool,
     // deterministic function of (text, seed)
     match second {
         Ok(Ok((again, _))) if again.verif_input() == input && again.verif_target() == target => {}
-        Ok(Ok((again, _))) => run.violation("deterministic", "", case(), format!("same (text, seed) gave input {input:?} and then {:?}", again.verif_input())),
-        _ => run.violation("deterministic", "", case(), "the second identical call failed".to_string()),
+        Ok(Ok((again, _))) => run.violation("deterministic", "", case(), format!("same (text, seed) gave input {input:?} and then (as an item of source file 3) {:?}", again.verif_input())),
+        _ => run.violation("deterministic", "", case(), "the second call (same text and seed, item of source file 3) failed".to_string()),
     }
     if target != text {
         run.violation("target-untouched", "", case(), format!("target became {target:?}"));
